@@ -121,17 +121,17 @@ Definition shape_ok (lim : limits) (s : status) : bool :=
 (* [time] = Some t : the condition must carry exactly t;  None : the transition time is ignored.
    A message longer than the CRD allows cannot be written verbatim: then only "same message, within the
    limit" is demanded. *)
-Definition cond_ok (lim : limits) (gen : Z) (time : option Z) (p : pcond) (c : cond) : bool :=
+Definition cond_ok (lim : limits) (gen : Z) (time : option Z) (strict : bool) (p : pcond) (c : cond) : bool :=
   String.eqb (p_type p) (c_type c) && String.eqb (p_status p) (c_status c) && String.eqb (p_reason p) (c_reason c)
   && Nat.eqb (p_msg p) (c_msg c) && Z.eqb gen (c_gen c)
-  && (if (p_mlen p <=? lim_msg lim)%N then N.eqb (p_mlen p) (c_mlen c) else (c_mlen c <=? lim_msg lim)%N)
+  && (if strict || (p_mlen p <=? lim_msg lim)%N then N.eqb (p_mlen p) (c_mlen c) else (c_mlen c <=? lim_msg lim)%N)
   && match time with Some t => Z.eqb t (c_time c) | None => true end.
 
 (* [strict] : in the order of the last occurrences;  otherwise as a multiset (the conditions list is a map
    keyed by type, so the order carries no meaning) *)
 Definition conds_ok lim gen time (strict : bool) (ps : list pcond) (cs : list cond) : bool :=
-  if strict then list_eqb2 (cond_ok lim gen time) (last_wins ps) cs
-  else match_all (cond_ok lim gen time) (last_wins ps) cs.
+  if strict then list_eqb2 (cond_ok lim gen time strict) (last_wins ps) cs
+  else match_all (cond_ok lim gen time strict) (last_wins ps) cs.
 
 Definition entry_ok lim (ctl : string) gen (time : option Z) (strict : bool) (pe : pentry) (e : entry) : bool :=
   String.eqb (e_ctlr e) ctl
